@@ -234,6 +234,9 @@ func cmdCheck(args []string) int {
 	var samples []map[string]interface{}
 	var knownHit []string
 	replayDir := filepath.Join(verifRoot, "replays", "run", id)
+	if v := os.Getenv("GOVC_EVIDENCE"); v != "" {
+		replayDir = filepath.Join(v, "replays", id)
+	}
 	os.RemoveAll(replayDir)
 	for _, name := range order {
 		o := byName[name]
@@ -266,6 +269,7 @@ func cmdCheck(args []string) int {
 		if k, ok := knownFor[name]; ok {
 			fmt.Printf("KNOWN-FINDING: property=%s %s %s\n", id, name, k.What)
 			knownHit = append(knownHit, name)
+			total-- // reported separately (known_findings_hit), not as an obligation of the proof
 			continue
 		}
 		violations++
@@ -364,9 +368,13 @@ func cmdCheck(args []string) int {
 		"wall_s":      round2(time.Since(t0).Seconds()),
 		"violations":  violations,
 	}
-	os.MkdirAll(filepath.Join(verifRoot, "evidence"), 0755)
+	evDir := filepath.Join(verifRoot, "evidence")
+	if v := os.Getenv("GOVC_EVIDENCE"); v != "" {
+		evDir = v // development runs on a modified tree must not overwrite the committed evidence
+	}
+	os.MkdirAll(evDir, 0755)
 	data, _ := json.MarshalIndent(ev, "", " ")
-	if err := os.WriteFile(filepath.Join(verifRoot, "evidence", id+".json"), data, 0644); err != nil {
+	if err := os.WriteFile(filepath.Join(evDir, id+".json"), data, 0644); err != nil {
 		fmt.Fprintln(os.Stderr, "govc: cannot write evidence:", err)
 		return 3
 	}
